@@ -345,7 +345,11 @@ pub fn stroke_to_path(path: &Path, style: &StrokeStyle) -> Path {
                         join_line(&mut stroked_path, style, end_point, last_normal, start_normal);
                     }
                 }
-                cur_pt = start_point.map(|x| x.0);
+                // closing returns to the start of the subpath. A subpath without any segment
+                // of non-zero length has not moved away from it
+                if let Some((point, _)) = start_point {
+                    cur_pt = Some(point);
+                }
                 start_point = None;
             }
             PathOp::QuadTo(..) => panic!("Only flat paths handled"),
